@@ -61,8 +61,9 @@ func (exec *execCtx) assemble() {
 			}
 		} else {
 			ok := exec.writeCollectedHeader()
-			if ok && exec.overtakePayloadInReverse(children[len(children)-1]) {
+			if ok && exec.overtakePayloadInReverse(children[len(children)-1]) && exec.lastChildRange.GetLength() > 0 {
 				// payload of all children except the last are written, write last payload
+				// (unless the requested range ends before it: zero range means full payload)
 				exec.copyChild(exec.lastChildID, &exec.lastChildRange, false)
 			}
 		}
@@ -74,7 +75,10 @@ func (exec *execCtx) assemble() {
 					rng = &exec.lastChildRange
 				}
 				// payload of all children except the last are written, write last payload
-				exec.copyChild(exec.lastChildID, rng, false)
+				// (unless the requested range ends before it: zero range means full payload)
+				if rng == nil || rng.GetLength() > 0 {
+					exec.copyChild(exec.lastChildID, rng, false)
+				}
 			}
 		}
 	} else {
